@@ -125,6 +125,38 @@ def _cache_enabled_edges(fn_node, cfg, i):
     return []
 
 
+def r3b_cache_holds_snapshot_objects_only(ctx):
+    """The cache is keyed by storage path and shared by every repository of the user: it is safe only for objects whose
+    path determines their content - snapshot objects (the name is the digest).  The helpers are therefore used by the
+    snapshot loader (read / store / discard) and by the deleting commands (discard) only, never with a fixed name such
+    as `config`, whose content differs from repository to repository and is not verified against anything."""
+    corpus = ctx.corpus
+    cls = repo_cls(corpus)
+    n = 0
+    for f in list(cls.methods.values()) + [x for m in cls.methods.values() for x in m.all_nested()]:
+        if f.name in CACHE_HELPERS:
+            continue
+        for c in self_calls(f.node, CACHE_HELPERS):
+            n += 1
+            top = f
+            while top.parent is not None:
+                top = top.parent
+            helper = (dotted(c.func) or '').rsplit('.', 1)[-1]
+            arg = c.args[0] if c.args else None
+            fixed = isinstance(arg, (ast.Constant, ast.JoinedStr)) or (isinstance(arg, ast.Attribute) and arg.attr.isupper())
+            where_ok = top.name.startswith('_download_snapshot') or top.name == '_load_snapshots' or (helper == '_delete_cached' and top.name in ('delete_snapshots', 'delete_objects'))
+            ctx.check(
+                not fixed and where_ok,
+                'C18.R3',
+                f'{func_label(f)}|cache-holds-snapshot-objects-only:{helper}',
+                loc(f, c),
+                f'{f.qual}: {helper} is applied to a snapshot object path inside the snapshot loader / a deleting command',
+                f'{f.qual}: `{src(c, 60)}` uses the snapshot cache for something that is not a content-addressed snapshot object (or outside the loader): the cache is shared by all repositories of '
+                'the user and nothing verifies such an entry - a second repository is unlocked with the first one\'s config, a truncated entry is trusted',
+            )
+    ctx.floor('C18.R3', 'cache helper call sites', n, 3)
+
+
 def r4_disabled_untouched(ctx):
     corpus = ctx.corpus
     cls = repo_cls(corpus)
@@ -271,6 +303,9 @@ def run(ctx):
 
     r3_skip_whitelist(Relabel(ctx, 'C18.R6'))
     r1_r2(ctx)
+    r3b_cache_holds_snapshot_objects_only(ctx)
+    # a damaged cache entry costs a download, never an object of the store: reading commands cannot reach backend.delete
+    shared.deletion_confined_to_gc_commands(ctx, 'C18.R5')
     r3_never_widens(ctx)
     r4_disabled_untouched(ctx)
     r5_helpers(ctx)
